@@ -56,6 +56,12 @@ CHECKS = {
         text="Generated sets of variables/biases: atomic forces and energy of the joint run equal the sum of single-object runs (rel 1e-10); timeStepFactor k: forces applied k-fold at multiples of k and zero otherwise, biases updated on the coarse steps only.",
         note="Stateless biases for the sum part; the MTS part uses controlled variables.",
         design="DESIGN.md section 4 C08"),
+    "C11": dict(
+        technique="fault enumeration driven by property-based generation (Hypothesis): process death at every proxy-level file operation (and, thorough, SIGKILL at every rename/openat/write/close/unlink system call via strace), crash sequences; truncation of generated states at generated/all offsets; coverage-guided fuzzing of damaged states (libFuzzer, ASan+UBSan); rapidcheck round trip of the binary stream",
+        level="fault_enumeration",
+        text="For each generated configuration/history every I/O point after the first completed state is a death point; after each death one of state/.old must load and equal a reference state. Truncated states: no crash, mid-block cuts of text states are errors, no half-loaded object. Damaged states: no memory error, module usable. Binary stream: every element type and length.",
+        note="Three listed known findings are reported as KNOWN-FINDING (double death overwrites the backup with a partial file; binary hills list has no terminator). OPES is left out of the crash part (its state content is the subject of a C03 finding). Deaths are modelled by _exit at I/O points and by SIGKILL at syscall entry, not inside a single write() call.",
+        design="DESIGN.md section 4 C11"),
     "C12": dict(
         technique="property-based testing over schedules (Hypothesis) with the harness owning the schedule: bitwise trace equality under generated work-item orders and real threads; ThreadSanitizer build for races",
         level="exploration",
